@@ -79,11 +79,15 @@ def expected(op, neg, x, y):
 
 def clause_text(i, j, op, neg, form):
     lhs = "v%d" % i
-    rhs = "v%d" % j if form == "q" else gen.glit(U[j])
+    rhs = "v%d" % j if form in ("q", "v") else gen.glit(U[j])
+    if form == "v":
+        # the left operand is a literal bound to a variable, the right one comes from the document (symmetry of the comparison)
+        lhs = "%lv"
+    pre = "let lv = %s\n    " % gen.glit(U[i]) if form == "v" else ""
     if op == "==":
         o = "!=" if neg else "=="
-        return "%s %s %s" % (lhs, o, rhs)
-    return "%s%s %s %s" % ("not " if neg else "", lhs, op, rhs)
+        return "%s%s %s %s" % (pre, lhs, o, rhs)
+    return "%s%s%s %s %s" % (pre, "not " if neg else "", lhs, op, rhs)
 
 
 DOC = json.dumps({"v%d" % i: v for i, v in enumerate(U)})
@@ -114,8 +118,10 @@ def shard(ctx):
             cases = []
             for op in ["==", "<", "<=", ">", ">="]:
                 for neg in (False, True):
-                    for form in ("q", "l"):
+                    for form in ("q", "l", "v"):
                         if form == "l" and not gen.lit_spellable(y):
+                            continue
+                        if form == "v" and not gen.lit_spellable(x):
                             continue
                         exp = expected(op, neg, x, y)
                         name = "r%d" % len(cases)
@@ -147,7 +153,7 @@ def shard(ctx):
                 ctx.res.distinct.add(cls)
                 if got != exp:
                     same = tclass(x) == tclass(y)
-                    sig = "cmp:%s%s:%s:%s" % ("not-" if neg else "", op, "query-rhs" if form == "q" else "literal-rhs",
+                    sig = "cmp:%s%s:%s:%s" % ("not-" if neg else "", op, {"q": "query-rhs", "l": "literal-rhs", "v": "literal-variable-lhs"}[form],
                                               ("same-type-" + tclass(x)) if same else "cross-type")
                     if same and tclass(x) == "null" and op != "==":
                         sig = "cmp:null-ordering"
